@@ -73,3 +73,22 @@ assumptions = ("only ViewRegistry::MatchInstrument and MatchMeter are under cont
                "the instrument name / unit validators (std::regex), view attribute processors and the scope configurators are NOT covered",)
 not_covered = ("InstrumentMetaDataValidator (std::regex)", "PatternPredicate (std::regex)", "ViewRegistry::FindViews", "ScopeConfigurator", "provider GetTracer/GetMeter/GetLogger identity")
 refuters = {}
+
+
+def refute_match(mod, proof, violations, ix, workdir, seed):
+    """directed native search through the real ViewRegistry::FindViews: every combination of selector / instrument / meter components over small alphabets"""
+    import os, re as _re, subprocess
+    src = ["sdk/src/metrics/state/filtered_ordered_attribute_map.cc"]
+    binpath = R.build_native("c19_native", [os.path.join(R.core.HERE, "replay", "c19_native.cc")] + [os.path.join(R.core.REPO, s) for s in src], ["-O1"])
+    full = subprocess.run([binpath, "search"], stdout=subprocess.PIPE, stderr=subprocess.STDOUT, text=True, timeout=300).stdout
+    m = _re.findall(r"^FOUND (.*)$", full, _re.M)
+    if not m:
+        return None
+    args = m[-1].split()
+    r = R.native_check("c19_native", ["c19_native.cc"], args, ["-O1"], repo_sources=src)
+    r["input"] = {"driver_args": args, "meaning": "match <selector: instrument name, unit, type, meter name, version, schema> <actual: instrument name, unit, type, meter name, version, schema>  ('-' = empty)",
+                  "found_by": "directed native search (refute mode)"}
+    return r if r["reproduced"] else None
+
+
+refuters = {p.name: refute_match for p in proofs}
